@@ -1,7 +1,7 @@
 #!/bin/bash
 # usage: tools/soak.sh <tier> <seeds...>  -- every claimed check on the unchanged tree with several VERIF_SEEDs; prints exit codes
 tier="$1"; shift
-cd /verif
+cd "$(cd "$(dirname "$0")/.." && pwd)"
 for seed in "$@"; do
   for p in C18 C07 C11 C10 C09 C06 C01 C04 C12 C15; do
     out=$(VERIF_SEED=$seed timeout 7200 ./check $p --tier $tier 2>&1); rc=$?
